@@ -235,6 +235,22 @@ func GenConfig(r *rand.Rand, profile string) Config {
 			c.Tokens = append(c.Tokens, t)
 		}
 	}
+	if r.Intn(5) == 0 {
+		// the same contract address on Ethereum and on BSC (deterministic deployments give one address on every EVM
+		// chain), possibly with other decimals and even for another denom: every lookup must stay within its chain
+		var eth, bsc []int
+		for i, t := range c.Tokens {
+			switch t.Chain {
+			case "ethereum":
+				eth = append(eth, i)
+			case "bsc":
+				bsc = append(bsc, i)
+			}
+		}
+		if len(eth) > 0 && len(bsc) > 0 {
+			c.Tokens[bsc[r.Intn(len(bsc))]].ExtID = c.Tokens[eth[r.Intn(len(eth))]].ExtID
+		}
+	}
 	gl := r.Intn(33)
 	g := make([]byte, gl)
 	for i := range g {
